@@ -604,6 +604,7 @@ static void on_alarm(int sig)
     _exit(5);
 }
 
+static unsigned iter_calls;
 int main(int argc, char **argv)
 {
     unsigned alarm_s = 10;
@@ -647,6 +648,7 @@ int main(int argc, char **argv)
         const char *op = a[0];
         alarm(alarm_s);
         if (!strcmp(op, "reset") && na == 1) {
+            iter_calls = 0;
             mgrs_release();
             mgrs_alloc();
             printf("ok\n");
@@ -735,8 +737,7 @@ int main(int argc, char **argv)
             char tmp[16];
             /* every other walk hands udict_iterate a name the CALLER owns (a copy of what the previous
              * call returned): the cursor is the (name, type) pair, not the address of the name */
-            static unsigned iter_calls;
-            bool own = (iter_calls++ & 1) != 0;
+            bool own = (iter_calls++ & 1) != 0;      /* (counted from the last reset: re-running one script gives the same walks) */
             static char own_name[70000];
             while (d != NULL) {
                 if (!ubase_check(udict_iterate(d, &name, &type))) { printf("%sERR", count ? " " : ""); count++; break; }
